@@ -78,6 +78,20 @@ func PRNG(k PRNGKind, b []byte) (res Result) {
 		if len(b) >= k.Size {
 			res.add(routine+"|"+cls+"|rejected", "%s rejects %d bytes (state size %d): %v", routine, len(b), k.Size, err)
 		}
+		// a used generator after a rejected decode: still a generator
+		res.Calls += 2
+		if p := try(func() {
+			e2 := s2.UnmarshalBinary(b)
+			if e2 == nil {
+				res.add(routine+"|"+cls+"|not-repeatable", "%s rejects and then accepts the same %d bytes", routine, len(b))
+			}
+			if st, e3 := s2.MarshalBinary(); e3 != nil || len(st) != k.Size {
+				res.add(routine+"|rejected-input|receiver-inconsistent", "after a rejected %s MarshalBinary gives %d bytes, err %v", routine, len(st), e3)
+			}
+			Draw(s2, 700)
+		}); p != "" {
+			res.add(routine+"|rejected-input|receiver-inconsistent", "after a rejected %s, using the generator panicked: %s", routine, p)
+		}
 		return res
 	}
 	res.Accepted = true
